@@ -631,14 +631,104 @@ def dispatch(ex, func, argv, frame):
         return Str(s.buf, s.start, s.end, False)
     if g in ('core::slice::<impl [u8]>::len', 'core::slice::<impl [T]>::len'):
         return deref(a[0]).len()
-    if g == 'std::cmp::min':
+    if g in ('std::cmp::min', 'std::cmp::Ord::min') or re.match(r'^<\w+ as std::cmp::Ord>::min$', g):
         return ite(lt(a[1], a[0]), a[1], a[0])
+    if g in ('std::cmp::max', 'std::cmp::Ord::max') or re.match(r'^<\w+ as std::cmp::Ord>::max$', g):
+        return ite(lt(a[1], a[0]), a[0], a[1])
+    mm_ = re.match(r'^core::num::<impl (u\w+)>::(saturating_sub|saturating_add|checked_sub|checked_add|wrapping_sub|wrapping_add|abs_diff|min|max)$', g)
+    if mm_:
+        lo_, hi_ = int_range(mm_.group(1))
+        op_ = mm_.group(2)
+        x, y = a[0], a[1]
+        if op_ == 'saturating_sub':
+            return ite(lt(x, y), 0, sub(x, y))
+        if op_ == 'saturating_add':
+            return ite(gt(add(x, y), hi_), hi_, add(x, y))
+        if op_ == 'checked_sub':
+            return NoneV() if not ex.branch(ge(x, y)) else Some(sub(x, y))
+        if op_ == 'checked_add':
+            return NoneV() if not ex.branch(le(add(x, y), hi_)) else Some(add(x, y))
+        if op_ == 'wrapping_sub':
+            return ite(lt(x, y), add(sub(x, y), hi_ + 1), sub(x, y))
+        if op_ == 'wrapping_add':
+            return ite(gt(add(x, y), hi_), sub(add(x, y), hi_ + 1), add(x, y))
+        if op_ == 'abs_diff':
+            return ite(lt(x, y), sub(y, x), sub(x, y))
+        if op_ == 'min':
+            return ite(lt(y, x), y, x)
+        return ite(lt(y, x), x, y)
     if g == 'core::str::<impl str>::find' and f.endswith('::<char>'):
         ch = a[1]
         if not isinstance(ch, int) or ch >= 128:
             raise Unsupported('find of a non-ASCII / symbolic char')
         found, j = find_first(ex, a[0], a[0].start, 'eq%d' % ch, lambda b, ch=ch: b == ch)
         return Some(sub(j, a[0].start)) if found else NoneV()
+    if g == 'core::str::<impl str>::find' and f.endswith('::<&str>'):
+        hay, needle = deref(a[0]), deref(a[1])
+        if not needle.concrete() or any(b >= 128 for b in needle.bytes()) or len(needle.bytes()) == 0:
+            raise Unsupported('find of a non-literal / non-ASCII / empty pattern')
+        c = ctx_of(ex, hay)
+        if c is None:
+            raise Unsupported('find on a non-input buffer')
+        nb = needle.bytes()
+        # total definition: j = least index in [start, end) at which the literal occurs entirely inside the slice, or end
+        def occurs(k):
+            return z3.And([Z(k) + len(nb) <= Z(hay.end)] + [c.S(Z(k) + i) == b for i, b in enumerate(nb)])
+        j = ex.fresh('ixs')
+        cs = [Z(hay.start) <= j, j <= Z(hay.end), z3.Or(j == Z(hay.end), occurs(j))]
+        for k in range(c.lmax + 1):
+            cs.append(z3.Or(z3.Not(Z(hay.start) <= k), z3.Not(j > k), z3.Not(occurs(k))))
+        ex.assume(z3.And(cs))
+        if ex.branch(j < Z(hay.end)):
+            return Some(sub(j, hay.start))
+        return NoneV()
+    if g in ('core::str::<impl str>::trim_start_matches', 'core::str::<impl str>::trim_end_matches') and f.endswith('::<char>'):
+        s = deref(a[0])
+        ch = a[1]
+        c = ctx_of(ex, s)
+        if c is None or not isinstance(ch, int) or ch >= 128:
+            raise Unsupported('trim_*_matches on a non-input buffer / non-ASCII char')
+        j = ex.fresh('trm')
+        if 'trim_start' in g:
+            # j = least index in [start, end) whose byte differs from ch, or end
+            ex.assume(z3.And(Z(s.start) <= j, j <= Z(s.end), c.forall_range(s.start, j, 'eq%d' % ch, lambda b, ch=ch: b == ch),
+                             z3.Or(j == Z(s.end), c.S(j) != ch)))
+            return Str(s.buf, j, s.end, s.is_str)
+        # j = greatest end such that everything in [j, end) equals ch
+        ex.assume(z3.And(Z(s.start) <= j, j <= Z(s.end), c.forall_range(j, s.end, 'eq%d' % ch, lambda b, ch=ch: b == ch),
+                         z3.Or(j == Z(s.start), c.S(j - 1) != ch)))
+        return Str(s.buf, s.start, j, s.is_str)
+    if g in ('core::str::<impl str>::strip_prefix', 'core::str::<impl str>::strip_suffix'):
+        s = deref(a[0])
+        if f.endswith('::<char>'):
+            if not isinstance(a[1], int) or a[1] >= 128:
+                raise Unsupported('strip_* non-ASCII char')
+            pat = Str(Buf('lit', data=bytes([a[1]])), 0, 1)
+        else:
+            pat = deref(a[1])
+        n = pat.len()
+        if 'strip_prefix' in g:
+            if ex.branch(starts_with(ex, s, pat)):
+                return Some(Str(s.buf, add(s.start, n), s.end, s.is_str))
+            return NoneV()
+        if ex.branch(ends_with(ex, s, pat)):
+            return Some(Str(s.buf, s.start, sub(s.end, n), s.is_str))
+        return NoneV()
+    if g == 'core::str::<impl str>::is_char_boundary':
+        s = deref(a[0])
+        pos = a[1]
+        b = s.buf.at(add(s.start, pos))
+        return or_(eq(pos, 0), eq(pos, s.len()), and_(lt(pos, s.len()), not_(and_(ge(b, 128), lt(b, 192)))))
+    if g == 'core::str::<impl str>::contains' and (f.endswith('::<char>') or f.endswith('::<&str>')):
+        r = dispatch(ex, f.replace('::contains::', '::find::'), a, frame)
+        return r.variant == 'Some'
+    if g in ('core::slice::<impl [u8]>::contains', 'core::slice::<impl [T]>::contains'):
+        s = deref(a[0])
+        x = deref(a[1])
+        c = ctx_of(ex, s)
+        if c is None or not isinstance(x, int):
+            raise Unsupported('[u8]::contains on a non-input buffer / symbolic needle')
+        return not_(c.forall_range(s.start, s.end, 'not_eq%d' % x, lambda b, x=x: z3.Not(b == x)))
     if g == 'core::slice::<impl [u8]>::iter' or g == 'core::slice::<impl [T]>::iter':
         return Opaque('sliceiter', s=deref(a[0]))
     if g == '<std::slice::Iter as std::iter::Iterator>::position':
@@ -812,9 +902,21 @@ def dispatch(ex, func, argv, frame):
         return Opaque('String', s=s)
     if g.endswith('as std::clone::Clone>::clone'):
         return deref(a[0])
+    if g == 'std::net::Ipv6Addr::to_canonical':
+        ip = deref(a[0])
+        if not (isinstance(ip, Opaque) and ip.kind == 'ip' and ip.fam == 6):
+            raise Unsupported('to_canonical of ' + repr(ip))
+        # IPv4-mapped (::ffff:a.b.c.d) addresses become the IPv4 address, everything else is unchanged
+        mapped = eq(Z(ip.val) / (2 ** 32), 0xFFFF)
+        if ex.branch(mapped):
+            return Enum('std::net::IpAddr', 'V4', [Opaque('ip', fam=4, val=Z(ip.val) % (2 ** 32))])
+        return Enum('std::net::IpAddr', 'V6', [ip])
     if g == 'core::fmt::rt::Argument::new_display':
         t = f[f.index('new_display::<') + 14:-1]
-        return Opaque('fmtarg', ty=t, v=deref(a[0]))
+        v = deref(a[0])
+        if t == 'std::net::IpAddr' and isinstance(v, Enum):
+            return Opaque('fmtarg', ty='std::net::Ipv4Addr' if v.variant == 'V4' else 'std::net::Ipv6Addr', v=v.fields[0])
+        return Opaque('fmtarg', ty=t, v=v)
     if g == 'std::fmt::Arguments::new':
         tpl = deref(a[0])
         args = deref(a[1])
